@@ -154,7 +154,7 @@ impl Sub<u64> for ClockTime {
 	fn sub(self, ticks: u64) -> Self::Output {
 		Self {
 			clock: self.clock,
-			ticks: self.ticks - ticks,
+			ticks: self.ticks.saturating_sub(ticks),
 			fraction: self.fraction,
 		}
 	}
@@ -162,7 +162,7 @@ impl Sub<u64> for ClockTime {
 
 impl SubAssign<u64> for ClockTime {
 	fn sub_assign(&mut self, ticks: u64) {
-		self.ticks -= ticks;
+		self.ticks = self.ticks.saturating_sub(ticks);
 	}
 }
 
@@ -180,14 +180,36 @@ impl Sub<f64> for ClockTime {
 			return self.add(-ticks);
 		}
 
-		let fraction = ((self.fraction - ticks).fract() + 1.0) % 1.0;
-		let ticks = self
-			.ticks
-			.saturating_sub((ticks - self.fraction).ceil() as u64);
+		let zero = Self {
+			clock: self.clock,
+			ticks: 0,
+			fraction: 0.0,
+		};
+		// subtract the whole and fractional parts separately so no
+		// precision is lost, borrowing one tick if the fraction goes negative
+		let whole_ticks = ticks.trunc() as u64;
+		if whole_ticks > self.ticks {
+			return zero;
+		}
+		let mut result_ticks = self.ticks - whole_ticks;
+		let mut fraction = self.fraction - ticks.fract();
+		if fraction < 0.0 {
+			if result_ticks == 0 {
+				return zero;
+			}
+			fraction += 1.0;
+			// a tiny negative fraction rounds up to a whole tick,
+			// in which case no tick needs to be borrowed
+			if fraction >= 1.0 {
+				fraction = 0.0;
+			} else {
+				result_ticks -= 1;
+			}
+		}
 
 		Self {
 			clock: self.clock,
-			ticks,
+			ticks: result_ticks,
 			fraction,
 		}
 	}
